@@ -4,7 +4,9 @@ C15 driver: one stateless operation per line (see `go/props/c15/c15.go` for the 
 The digest / HMAC helpers are `HexEncode ∘ stdlib` and the Base64 helpers are the stdlib
 codec itself (facts extracted from the source): the line carries the stdlib result and the
 model applies `hexEncode?` (resp. the identity) to it. The same model answers for the
-`string` and the `[]byte` instantiation, and never modifies its input (`mod=false`).
+`string` and the `[]byte` instantiation (`s=`/`b=`; `ts=`/`tss=` are the `…ToString` variants on
+`[]byte`/`string`; `st=`/`st1=`/`stw=` the stream form read in chunks, byte by byte and through
+`io.WriterTo`), and never modifies its input (`mod=false`).
 -/
 import Golib.Model.C15Parse
 import Golib.Model.C15Hex
@@ -22,7 +24,8 @@ def digestAlgos : List (String × Bool) :=   -- name, has a stream form
   [("md5", true), ("sha1", true), ("sha224", true), ("sha256", true), ("sha384", true),
    ("sha512", true), ("sha512_224", false), ("sha512_256", false)]
 
-def hmacAlgos : List String := ["md5", "sha1", "sha224", "sha256", "sha384", "sha512"]
+def hmacAlgos : List String :=
+  ["md5", "sha1", "sha224", "sha256", "sha384", "sha512", "sha512_224", "sha512_256"]
 
 def b64Encs : List String := ["std", "url", "rawstd", "rawurl"]
 
@@ -42,14 +45,14 @@ def runOp (ts : List String) : String :=
     | some s =>
       match hexEncode? s with
       | none => "panic"
-      | some o => rep ["s", "b", "ts"] (hex o) ++ " mod=false"
+      | some o => rep ["s", "b", "ts", "tss"] (hex o) ++ " mod=false"
     | none => "bad-op"
   | ["hd", s] =>
     match unhex s with
     | some s =>
       match hexDecode? s with
       | none => "panic"
-      | some (o, e) => rep ["s", "b", "ts"] (hex o ++ "," ++ showErr e) ++ " mod=false"
+      | some (o, e) => rep ["s", "b", "ts", "tss"] (hex o ++ "," ++ showErr e) ++ " mod=false"
     | none => "bad-op"
   | ["hdip", s] =>
     match unhex s with
@@ -76,24 +79,25 @@ def runOp (ts : List String) : String :=
       match hexEncode? dig with
       | none => "panic"
       | some o =>
-        rep ["s", "b", "ts"] (hex o) ++ " st=" ++ (if stream then hex o else "none") ++ " mod=false"
+        rep ["s", "b", "ts", "tss"] (hex o) ++ " " ++
+          rep ["st", "st1", "stw"] (if stream then hex o else "none") ++ " mod=false"
     | _, _, _ => "bad-op"
   | ["hm", algo, key, data, mac] =>
     match hmacAlgos.contains algo, unhex key, unhex data, unhex mac with
     | true, some _, some _, some mac =>
       match hexEncode? mac with
       | none => "panic"
-      | some o => rep ["ss", "sb", "bs", "bb", "ts"] (hex o) ++ " mod=false"
+      | some o => rep ["ss", "sb", "bs", "bb", "ts", "tss"] (hex o) ++ " mod=false"
     | _, _, _, _ => "bad-op"
   | ["b64e", enc, inp, out] =>
     match b64Encs.contains enc, unhex inp, unhex out with
-    | true, some _, some out => rep ["s", "b", "ts"] (hex out) ++ " mod=false"
+    | true, some _, some out => rep ["s", "b", "ts", "tss"] (hex out) ++ " mod=false"
     | _, _, _ => "bad-op"
   | ["b64d", enc, inp, out, err] =>
     match b64Encs.contains enc, unhex inp, unhex out with
     | true, some _, some out =>
       if err = "ok" ∨ (unhex err).isSome then
-        rep ["s", "b", "ts"] (hex out ++ "," ++ err) ++ " mod=false"
+        rep ["s", "b", "ts", "tss"] (hex out ++ "," ++ err) ++ " mod=false"
       else "bad-op"
     | _, _, _ => "bad-op"
   | _ => "bad-op"
